@@ -239,24 +239,39 @@ RecvTy(g) == CASE g \in VecRecv -> "vec" [] g \in MatRecv -> "mat" [] g \in Band
                [] g \in SparseRecv -> "sparse" [] g \in PolyRecv -> "poly" [] g \in Mesh1Recv -> "mesh1" [] OTHER -> "none"
 Pr(prep, old) == [prep |-> prep, old |-> old]
 \* the preparations of a receiver whose NEW size is the head of tuple t: <<prep, old size(s)>>
+\* Besides plain growth/shrinkage the old state shares SOME dimensions with the new one but not others (same length;
+\* same rows*cols, other shape; same n and total bandwidth, other split; same band widths, other n; no-op resize; ...).
 Preps(ty, t) ==
-  CASE ty = "vec" -> {Pr("vec.resize", <<t[1] + 2>>), Pr("vec.pop_push", <<t[1] + 1>>), Pr("vec.clear_insert", <<t[1] + 1>>)}
+  CASE ty = "vec" -> {Pr("vec.resize", <<t[1] + 2>>), Pr("vec.resize", <<t[1]>>), Pr("vec.pop_push", <<t[1] + 1>>), Pr("vec.clear_insert", <<t[1] + 1>>)}
                      \cup (IF t[1] >= 1 THEN {Pr("vec.resize", <<t[1] - 1>>)} ELSE {}) \cup (IF t[1] >= 2 THEN {Pr("vec.pop_push", <<t[1] - 2>>)} ELSE {})
                      \cup (IF t[1] = 0 THEN {Pr("vec.clear", <<3>>)} ELSE {})
-    [] ty = "mat" -> {Pr("mat.resize", <<t[1] + 2, t[2] + 1>>), Pr("mat.delete_row", <<t[1] + 1, t[2]>>), Pr("mat.delete_row", <<t[1] + 2, t[2]>>),
-                      Pr("mat.transpose_in_place", <<t[2], t[1]>>), Pr("mat.clear_resize", <<t[1] + 1, t[2] + 1>>)}
+    [] ty = "mat" -> {Pr("mat.resize", <<t[1] + 2, t[2] + 1>>), Pr("mat.delete_row", <<t[1] + 1, t[2]>>),
+                      Pr("mat.transpose_in_place", <<t[2], t[1]>>), Pr("mat.clear_resize", <<t[1] + 1, t[2] + 1>>),
+                      Pr("mat.resize", <<t[2], t[1]>>),                                   \* same rows*cols, transposed shape (no-op when square)
+                      Pr("mat.resize", <<t[1], t[2] + 1>>), Pr("mat.resize", <<t[1] + 1, t[2]>>)}   \* same rows / same cols
                      \cup (IF t[1] >= 1 THEN {Pr("mat.resize", <<t[1] - 1, t[2] + 2>>)} ELSE {}) \cup (IF t[2] >= 1 THEN {Pr("mat.resize", <<t[1] + 1, t[2] - 1>>)} ELSE {})
+                     \cup (IF t[1] * t[2] >= 1 THEN {Pr("mat.resize", <<t[1] * t[2], 1>>),              \* same rows*cols: (r*c) x 1 -> r x c
+                                                     Pr("mat.reshape_chain", <<1, t[1] * t[2]>>)} ELSE {})   \* 1 x rc -> rc x 1 -> c x r -> r x c
                      \cup (IF t[1] = 0 /\ t[2] = 0 THEN {Pr("mat.clear", <<2, 3>>)} ELSE {})
-    [] ty = "band" -> {Pr("band.resize", <<t[1] + 1, t[2] + 1, t[3]>>), Pr("band.resize", <<t[1] + 2, t[2], t[3] + 1>>)}
-                      \cup (IF t[1] >= 1 THEN {Pr("band.resize", <<t[1] - 1, t[2], t[3] + 1>>)} ELSE {})
-    [] ty = "tri" -> IF t[1] = 0 THEN {} ELSE {Pr("tri.resize", <<t[1] + 2>>), Pr("tri.resize", <<t[1] - 1>>)}
-    [] ty = "sparse" -> {Pr("sparse.insert", <<t[1], t[2]>>), Pr("sparse.transpose", <<t[2], t[1]>>)}
+    [] ty = "band" -> {Pr("band.resize", <<t[1] + 1, t[2] + 1, t[3]>>), Pr("band.resize", <<t[1] + 2, t[2], t[3] + 1>>),
+                       Pr("band.resize", <<t[1], t[2], t[3]>>),                                          \* no-op resize
+                       Pr("band.resize", <<t[1] + 1, t[2], t[3]>>),                                      \* same band widths, other n
+                       Pr("band.resize", <<t[1], t[2], t[3] + 1>>), Pr("band.resize", <<t[1], t[2] + 1, t[3]>>)}   \* same n, one width changed
+                      \cup (IF t[1] >= 1 THEN {Pr("band.resize", <<t[1] - 1, t[2], t[3] + 1>>), Pr("band.resize", <<t[1] - 1, t[2], t[3]>>)} ELSE {})
+                      \cup (IF t[3] >= 1 THEN {Pr("band.resize", <<t[1], t[2] + 1, t[3] - 1>>)} ELSE {})   \* same n and m1 + m2, other split
+                      \cup (IF t[2] >= 1 THEN {Pr("band.resize", <<t[1], t[2] - 1, t[3] + 1>>)} ELSE {})
+    [] ty = "tri" -> IF t[1] = 0 THEN {} ELSE {Pr("tri.resize", <<t[1] + 2>>), Pr("tri.resize", <<t[1] - 1>>), Pr("tri.resize", <<t[1]>>)}
+    [] ty = "sparse" -> {Pr("sparse.insert", <<t[1], t[2]>>), Pr("sparse.transpose", <<t[2], t[1]>>), Pr("sparse.transpose2", <<t[1], t[2]>>)}
     [] ty = "poly" -> {Pr("poly.push", <<0>>), Pr("poly.pop", <<t[1] + 1>>)} \cup (IF t[1] >= 2 THEN {Pr("poly.push", <<t[1] - 2>>)} ELSE {})
-                      \cup (IF t[1] >= 1 THEN {Pr("poly.trim", <<t[1] + 2>>)} ELSE {})
-    [] ty = "mesh1" -> {Pr("mesh1.read", <<t[1] + 2>>), Pr("mesh1.read", <<t[1] + 1>>)} \cup (IF t[1] >= 1 THEN {Pr("mesh1.read", <<t[1] - 1>>)} ELSE {})
+                      \cup (IF t[1] >= 1 THEN {Pr("poly.trim", <<t[1] + 2>>), Pr("poly.pop_push", <<t[1]>>)} ELSE {})
+    [] ty = "mesh1" -> {Pr("mesh1.read", <<t[1] + 2>>), Pr("mesh1.read", <<t[1] + 1>>), Pr("mesh1.read", <<t[1]>>)}
+                       \cup (IF t[1] >= 1 THEN {Pr("mesh1.read", <<t[1] - 1>>)} ELSE {})
     [] OTHER -> {}
+\* number of leading tuple parameters that are the receiver's own dimensions
+RecvLen(ty) == CASE ty = "mat" -> 2 [] ty = "band" -> 3 [] ty = "sparse" -> 2 [] OTHER -> 1
 PrepKeys == {"vec.resize", "vec.pop_push", "vec.clear_insert", "vec.clear", "mat.clear", "mat.resize", "mat.delete_row", "mat.transpose_in_place", "mat.clear_resize",
-             "band.resize", "tri.resize", "sparse.insert", "sparse.transpose", "poly.push", "poly.pop", "poly.trim", "mesh1.read"}
+             "mat.reshape_chain", "band.resize", "tri.resize", "sparse.insert", "sparse.transpose", "sparse.transpose2", "poly.push", "poly.pop", "poly.pop_push",
+             "poly.trim", "mesh1.read"}
 
 (* ---------------- operand VARIANTS of the by-reference / consuming pairs (accepted tuples only) ---------------- *)
 (* rhs: content of the second operand ("other" distinct, "same" equal to the first, "zero", "eye" identity/ones,   *)
